@@ -238,28 +238,30 @@ class RuleProxy:
     """Report view that re-labels the rules of a shared analysis for another property: `mapping` maps the original
     rule id to the new one; rules mapped to None (or absent when `drop_others`) are not recorded."""
 
-    def __init__(self, R, mapping, drop_others=True):
-        self._R, self._m, self._drop = R, mapping, drop_others
+    def __init__(self, R, mapping, drop_others=True, only=None):
+        self._R, self._m, self._drop, self._only = R, mapping, drop_others, only
 
-    def _rule(self, rule):
+    def _rule(self, rule, instance=None):
+        if self._only and instance is not None and not self._only(instance):
+            return None
         if rule in self._m:
             return self._m[rule]
         return None if self._drop else rule
 
     def held(self, rule, instance, site='', detail=''):
-        r = self._rule(rule)
+        r = self._rule(rule, instance)
         return self._R.held(r, instance, site, detail) if r else None
 
     def violated(self, rule, instance, site='', detail='', **extra):
-        r = self._rule(rule)
+        r = self._rule(rule, instance)
         return self._R.violated(r, instance, site, detail, **extra) if r else None
 
     def check(self, cond, rule, instance, site='', detail='', bad_detail=None):
-        r = self._rule(rule)
+        r = self._rule(rule, instance)
         return self._R.check(cond, r, instance, site, detail, bad_detail) if r else None
 
     def abstain(self, rule, instance, why, site=''):
-        r = self._rule(rule)
+        r = self._rule(rule, instance)
         return self._R.abstain(r, instance, why, site) if r else None
 
     def note(self, msg):
